@@ -315,6 +315,16 @@ func (m *model) expandParam() []field {
 			}
 			return emptyField()
 		}
+		if null {
+			// nothing can be removed from a null value; whether the word is still expanded
+			// differs between shells (bash: no, dash: yes)
+			for _, p := range c.Word {
+				if p.Kind == "assign" || p.Kind == "arith" {
+					m.skip = "removal operator on a null parameter with a side-effecting word (shells differ)"
+				}
+			}
+			return emptyField()
+		}
 		pat := m.patternOf(c.Word, quoted)
 		pp := refpat.Parse(pat)
 		if pp.Class != refpat.OK {
